@@ -347,7 +347,6 @@ func soloKey(op plan.Op) string {
 func checkC13(e *Env) {
 	drv := e.BuildDrv(false)
 	var mu sync.Mutex
-	soloCache := map[string]*plan.Res{}
 	obs := newCounter()
 	pairs := newDistinct()
 	dist := newDistinct()
@@ -355,27 +354,8 @@ func checkC13(e *Env) {
 	totalOps := 0
 
 	solo := func(op plan.Op) *plan.Res {
-		k := soloKey(op)
-		mu.Lock()
-		if r, ok := soloCache[k]; ok {
-			mu.Unlock()
-			obs.Inc("solo_executions_reused")
-			return r
-		}
-		mu.Unlock()
-		op.I, op.Keep, op.Buf = 0, false, 0
-		res, died := e.RunProc(drv, []plan.Op{op}, nil, 0)
-		var r *plan.Res
-		if len(res) == 1 {
-			r = &res[0]
-		} else {
-			r = &plan.Res{Died: died}
-		}
-		mu.Lock()
-		soloCache[k] = r
-		mu.Unlock()
-		obs.Inc("solo_processes")
-		return r
+		obs.Inc("solo_lookups")
+		return e.Solo(drv, op)
 	}
 
 	runSequence := func(tag string, g *seqGen, soloEvery int) {
@@ -402,10 +382,14 @@ func checkC13(e *Env) {
 			if x.defined {
 				obs.Inc("compared_with_reference")
 			}
-			if why := e.judgeAgainstRef(op, r, x); why != "" && r.Panic == "" {
+			// (the reference is a filter; only a difference from the solo execution is a violation:
+			// a call that is wrong in the same way when run alone does not depend on history)
+			if why := e.confirmedDeviation(drv, op, r, x); why != "" && r.Panic == "" {
 				e.Violate(&Violation{What: fmt.Sprintf("sequence %s, call %d %s(lang %d): result depends on something other than the arguments — %s", tag, i, fnName(op.Fn), op.L, why),
-					Ops: g.ops[:i+1], Expected: x.errClass, Observed: r, Detail: "the failing call is the last of ops; the preceding ones are its history"})
+					Ops: g.ops[:i+1], Expected: e.Solo(drv, *op), Observed: r, Detail: "the failing call is the last of ops; the preceding ones are its history; run it alone to see the expected result"})
 				return
+			} else if x.defined && e.judgeAgainstRef(op, r, x) != "" {
+				obs.Inc("deviations_from_the_reference_that_are_the_same_when_run_alone(not_this_property)")
 			}
 			// 2. the same call alone, as the first call of a fresh process
 			det := !(op.Fn == "new" && op.Src == nil && validCount64(op.N))
